@@ -799,14 +799,17 @@ impl Fiber {
   pub fn print_error(&self, log: &mut dyn Write, error: Instance) {
     writeln!(log, "Traceback (most recent call last):").expect("Unable to write to stderr");
 
-    for frame in self.frames.iter().rev() {
+    for (index, frame) in self.frames.iter().rev().enumerate() {
       let fun = frame.fun();
       let location: String = match &*fun.name() {
         SCRIPT => SCRIPT.to_owned(),
         _ => format!("{}()", &*fun.name()),
       };
 
-      let offset = unsafe { frame.ip().offset_from(fun.chunk().instructions().as_ptr()) } as usize;
+      // a frame whose catch clauses were tried had its ip moved to the handler,
+      // the ip it was unwound at is the one saved for the backtrace
+      let ip = self.backtrace_ips.get(index).copied().unwrap_or_else(|| frame.ip());
+      let offset = unsafe { ip.offset_from(fun.chunk().instructions().as_ptr()) } as usize;
       writeln!(
         log,
         "  {}:{} in {}",
